@@ -113,6 +113,11 @@ def explore(chk):
             wd = lambda t: _sg.chars_to_words(t)[0]
             docs += [("scc", scc(wd("AB"), wd("DE"))), ("scc", scc(wd("OK"), wd("no")))]
             ops += [("read", len(docs) - 2, True), ("read", len(docs) - 1, rng.random() < 0.5), ("edit", "style_node_content", "last"), ("read", len(docs) - 2, False)]
+            # a document that positions its text (row 1, column 8), then one whose text comes before any preamble: the second
+            # falls back to the default position, whatever the reader object has seen before
+            docs += [("scc", "Scenarist_SCC V1.0\n\n00:00:01:00\t94ae 9420 9152 %s 942f\n\n00:00:03:00\t942c\n" % wd("UP")),
+                     ("scc", "Scenarist_SCC V1.0\n\n00:00:01:00\t94ae 9420 %s 942f\n\n00:00:03:00\t942c\n" % wd("ok"))]
+            ops += [("read", len(docs) - 2, True), ("read", len(docs) - 1, True)]
             if (h // 5) % 2:
                 # a document the reader rejects (a row of 34 characters), then a good one on the same reader object
                 bad = "Scenarist_SCC V1.0\n\n00:00:01:00\t94ae 9420 9440 " + " ".join(["c1c2"] * 17) + " 942f\n\n00:00:04:00\t942c\n"
@@ -157,7 +162,14 @@ def explore(chk):
                         '<body><div><p begin="1s" end="2s" style="a b c">one <span style="c b a">two</span></p></div></body></tt>'),
                ("sami", '<SAMI><HEAD><STYLE TYPE="text/css"><!--\n.ENCC { Name: English; lang: en-US; }\n.FRCC { Name: French; lang: fr-FR; }\n.DECC { lang: de-DE; }\n--></STYLE></HEAD><BODY>'
                         '<SYNC start=1000><P Class=ENCC>one</P><P Class=FRCC>un</P><P Class=DECC>eins</P></SYNC><SYNC start=2000><P Class=ENCC>&nbsp;</P>'
-                        '<P Class=FRCC>&nbsp;</P><P Class=DECC>&nbsp;</P></SYNC></BODY></SAMI>')]
+                        '<P Class=FRCC>&nbsp;</P><P Class=DECC>&nbsp;</P></SYNC></BODY></SAMI>'),
+               # several classes declare the same language with different alignment and margins: which one gives the language
+               # its layout must not depend on hashing
+               ("sami", '<SAMI><HEAD><STYLE TYPE="text/css"><!--\nP { font-family: Arial; }\n.ENCC { Name: English; lang: en-US; text-align: center; }\n'
+                        '.ENLEFT { lang: en-US; text-align: left; margin-left: 10%; }\n.ENRIGHT { lang: en-US; text-align: right; margin-right: 10%; }\n'
+                        '.ENTOP { lang: en-US; margin-top: 5%; }\n--></STYLE></HEAD><BODY>'
+                        '<SYNC start=1000><P Class=ENCC>one</P></SYNC><SYNC start=2000><P Class=ENLEFT>two</P></SYNC><SYNC start=3000><P Class=ENRIGHT>three</P></SYNC>'
+                        '<SYNC start=4000><P Class=ENTOP>&nbsp;</P></SYNC></BODY></SAMI>')]
     hs_jobs = [{"op": "read", "kind": k_, "doc": d_, "kwargs": {}, "init": {}} for (k_, d_) in hs_docs]
     hs_res = [pristine(hs_jobs, s_) for s_ in range(16)]
     for di_, (k_, d_) in enumerate(hs_docs):
